@@ -164,7 +164,7 @@ func runC10(p *core.Prog, r *core.Result) {
 			r.Check(okLoad, "R10.1", construct+":lookup-key", p.InstrPos(c.(ssa.Instruction)), "looked up under the same key", "the cache is read under a different key than it is written")
 		}
 	}
-	r.Floor("R10.1", nCaches, 3, "resolver cache stores")
+	r.Floor("R10.1", nCaches, 1, "resolver cache stores")
 	// FetchProject: the cache directory embeds path and version
 	if fp := need(p, r, "R10.1", "internal/mvs", "Resolver", "FetchProject"); fp != nil {
 		var dirV ssa.Value
@@ -648,7 +648,7 @@ func checkTransformReqs(p *core.Prog, r *core.Result, tr *ssa.Function) {
 			updates = append(updates, mu)
 		}
 	})
-	r.Floor("R11.2", len(updates), 2, "stores into the new requirement set")
+	r.Floor("R11.2", len(updates), 1, "stores into the new requirement set")
 	keepSeen, freshSeen := false, false
 	for i, mu := range updates {
 		// key from iterating a names slice looked up in oldProjects?
@@ -678,6 +678,41 @@ func checkTransformReqs(p *core.Prog, r *core.Result, tr *ssa.Function) {
 			lk, ok := e.Tuple.(*ssa.Lookup)
 			return ok && lk.X == newReqs && (lk.Index == mu.Key || core.Unwrap(lk.Index) == core.Unwrap(mu.Key))
 		})
+		if !okUnique {
+			// or: the name is produced by a helper that returns only names it has just failed to find in the set
+			if hc, isCall := core.Unwrap(mu.Key).(*ssa.Call); isCall {
+				if h := core.Callee(hc); h != nil && core.InModule(h) && h.Blocks != nil {
+					for ai, a := range hc.Call.Args {
+						if a != newReqs || ai >= len(h.Params) {
+							continue
+						}
+						hp := h.Params[ai]
+						all, some := true, false
+						for _, hr := range core.ReturnsOf(h) {
+							hv := core.RetVals(hr)
+							if len(hv) != 1 {
+								all = false
+								continue
+							}
+							some = true
+							if !p.FactsAt(hr).Find(func(c ssa.Value, val bool) bool {
+								e, ok := c.(*ssa.Extract)
+								if !ok || e.Index != 1 || val {
+									return false
+								}
+								lk, ok := e.Tuple.(*ssa.Lookup)
+								return ok && lk.X == ssa.Value(hp) && (lk.Index == hv[0] || core.Unwrap(lk.Index) == core.Unwrap(hv[0]))
+							}) {
+								all = false
+							}
+						}
+						if all && some {
+							okUnique = true
+						}
+					}
+				}
+			}
+		}
 		r.Check(okUnique, "R11.3", fmt.Sprintf("internal/mvs.transformReqs#fresh-name-unique-%d", i+1), p.InstrPos(mu), "a fresh name is stored only after a lookup of that same name in the new requirement set failed", "a fresh requirement name can overwrite an entry that already uses it")
 		// fresh names only for projects without existing names
 		okSkip := p.FactsAt(mu).Find(func(c ssa.Value, val bool) bool {
